@@ -130,7 +130,8 @@ def random_rule(rng, frac_p):
     else:
         thr = rng.choice(RATIOS)
     return rule(s, thr, rng.choice([0, 1, 1, 2, 3, 5]), rng.choice([1, 200, 500, 1000, 3000]), I, nb,
-                rng.choice([0, 10, 50, 400]), rng.choice([0, 0, 1, 2, 3]))
+                rng.choice([0, 10, 50, 400, 0, 10, 50, 400, 59999, 60000, 90000]),     # (incl. calls slower than any RT bound of the statistics)
+                rng.choice([0, 0, 1, 2, 3]))
 
 
 def random_scenarios(c, n, first_tr, frac_p=0.12):
